@@ -287,6 +287,27 @@ decided by exhaustive evaluation of the guard over environment x {no, some tagge
         }
     };
 
+    // the number is rendered verbatim: X.680 puts no upper limit on it, the IR carries a u64
+    for id in [0i128, 30, 31, 16383, 4_294_967_295, 4_294_967_301, 18_446_744_073_709_551_615] {
+        ctx.oblige("C03.tables", &format!("number:{}", id), true);
+        let mut f = BTreeMap::new();
+        f.insert("id".to_string(), Val::int(id));
+        f.insert("tag_class".to_string(), Val::ctor("ContextSpecific"));
+        f.insert("environment".to_string(), Val::ctor("Implicit"));
+        let t = Val::Ctor("AsnTag".into(), vec![], f);
+        match render(&t) {
+            Ok(s) => {
+                let compact: String = s.chars().filter(|c| !c.is_whitespace()).collect();
+                if compact != format!("tag(context,{})", id) {
+                    ctx.violate("C03.tables", "number-rendered-verbatim", &fmt_fn.file, fmt_fn.line,
+                        &format!("format_tag renders tag number {} as `{}`: the annotation must carry the number as written (no narrowing; a reduced number collides with another tag)", id, compact));
+                    break;
+                }
+            }
+            Err(e) => ctx.fail_closed("C03.tables", &format!("format_tag [number {}]: {}", id, e)),
+        }
+    }
+
     let class_of_kw = |kw: Option<&str>| -> &'static str {
         match kw {
             None => "context",
